@@ -323,7 +323,7 @@ def _symval(a):
 class HarnessDef:
     def __init__(self, name, fn, cases_quick, cases_thorough=None, max_paths=200,
                  timeout_s=60, timeout_s_thorough=None, axioms=(), encodes=(), doc="",
-                 random_validation=3, finding_tags=None):
+                 random_validation=3, finding_tags=None, concrete_alarms=True):
         self.name = name
         self.fn = fn
         self.cases_quick = cases_quick
@@ -336,6 +336,11 @@ class HarnessDef:
         self.doc = doc
         self.random_validation = random_validation
         self.finding_tags = finding_tags or {}
+        # concrete_alarms: a failing obligation in a plain-float run at a random point is
+        # reported as a violation.  Only for harnesses without iteration stubs: with stubs the
+        # random concrete run uses the real scipy, whose approximate / degenerate answers are
+        # outside the contract the solver reasons under.
+        self.concrete_alarms = concrete_alarms
 
 
 def _run_mode(hdef, case, mode, values=None, seed=0, use_defaults=True):
@@ -354,6 +359,11 @@ def _run_mode(hdef, case, mode, values=None, seed=0, use_defaults=True):
             outcome = ("ok", r)
         except PathAbort as ex:
             outcome = ("abort", str(ex))
+        except (ZeroDivisionError, FloatingPointError) as ex:
+            # a solver model may sit on a pole that real division turns into an exception
+            # while z3's total division does not: not a replay of the symbolic path
+            outcome = ("abort", f"arithmetic singularity: {ex}") if mode == "conc" else \
+                ("raise", ex, traceback.format_exc(limit=6))
         except Exception as ex:  # noqa: BLE001
             outcome = ("raise", ex, traceback.format_exc(limit=6))
     finally:
@@ -363,11 +373,13 @@ def _run_mode(hdef, case, mode, values=None, seed=0, use_defaults=True):
     return h, outcome
 
 
-def _model_values(model, h, engine, subst=None):
+def _model_values(model, h, engine, subst=None, pur=None):
     vals = {}
     for name, t, _lo, _hi in h.inputs:
         if t is None:
             continue
+        if pur is not None:
+            t = pur(t)
         if subst:
             t = z3.substitute(t, *subst)
         v = model.eval(t, model_completion=True)
@@ -452,8 +464,12 @@ def run_job(hdef, case, tier="quick", seed=0, replay_budget=6):
         for a in h.assumptions:
             if a not in stats["assumptions"]:
                 stats["assumptions"].append(a)
-        cons = e.constraints()
-        axioms = e.current_axioms()
+        pur = Purifier()
+        raw_side = list(e.side)
+        cons = [pur(c) for c in e.constraints()]
+        pside = [pur(c) for c in raw_side]
+        axioms = [pur(a) for a in e.current_axioms()]
+        axioms += pur.take_consistency()
         solver = z3.Solver()
         solver.set("timeout", int(min(timeout_s, 10) * 1000))
         solver.set("rlimit", int(min(timeout_s, 10) * 4e6))
@@ -468,6 +484,7 @@ def run_job(hdef, case, tier="quick", seed=0, replay_budget=6):
         if r == "sat":
             stats["vacuity_sat"] += 1
             path_model = solver.model()
+            path_model_pur = pur
         elif r == "unsat":
             # branch feasibility said maybe (unknown) earlier; path is dead
             stats["aborted"] += 1
@@ -489,7 +506,7 @@ def run_job(hdef, case, tier="quick", seed=0, replay_budget=6):
             ex = outcome[1]
             rep = None
             if path_model is not None:
-                vals = _model_values(path_model, h, e)
+                vals = _model_values(path_model, h, e, None, pur)
                 hc, oc = _run_mode(hdef, case, "conc", vals, seed)
                 if oc[0] == "raise" and type(oc[1]).__name__ == type(ex).__name__:
                     rep = vals
@@ -506,7 +523,8 @@ def run_job(hdef, case, tier="quick", seed=0, replay_budget=6):
         for name, claim, opts in h.obligations:
             drop_pc = opts["drop_pc"]
             subst = opts["subst"]
-            claim = z3.simplify(claim)
+            claim = z3.simplify(pur(claim))
+            extra_cons = pur.take_consistency()
             if z3.is_true(claim):
                 stats["concrete_true"] = stats.get("concrete_true", 0) + 1
                 continue
@@ -522,11 +540,12 @@ def run_job(hdef, case, tier="quick", seed=0, replay_budget=6):
             osolver = z3.Solver()
             osolver.set("timeout", int(timeout_s * 1000))
             osolver.set("rlimit", int(timeout_s * 4e6))
-            ocons = list(e.side if drop_pc else cons)
-            oax = list(axioms)
+            ocons = list(pside if drop_pc else cons)
+            oax = list(axioms) + extra_cons
             if subst:
+                subst = [(pur(a), pur(b)) for a, b in subst]
                 claim = z3.substitute(claim, *subst)
-                ocons = [z3.substitute(c, *subst) for c in ocons] + list(opts["extra"])
+                ocons = [z3.substitute(c, *subst) for c in ocons] + [pur(x) for x in opts["extra"]]
                 oax = [z3.substitute(c, *subst) for c in oax]
             base = ocons + oax
             # cone of influence: constraints sharing (transitively) a variable with the claim.
@@ -561,7 +580,7 @@ def run_job(hdef, case, tier="quick", seed=0, replay_budget=6):
                 except z3.Z3Exception:
                     pv = None
                 if pv is not None and z3.is_false(pv):
-                    vals = _model_values(path_model, h, e)
+                    vals = _model_values(path_model, h, e, None, pur)
                     hc, oc = _run_mode(hdef, case, "conc", vals, seed)
                     failed = [n for n, ok in hc.obligations if n == name and not ok]
                     if failed and oc[0] != "abort":
@@ -584,7 +603,7 @@ def run_job(hdef, case, tier="quick", seed=0, replay_budget=6):
                     verdict = "unknown"
                     break
                 m = osolver.model()
-                vals = _model_values(m, h, e, subst)
+                vals = _model_values(m, h, e, subst, pur)
                 hc, oc = _run_mode(hdef, case, "conc", vals, seed)
                 failed = [n for n, ok in hc.obligations if n == name and not ok]
                 if failed and oc[0] != "abort":
@@ -608,7 +627,7 @@ def run_job(hdef, case, tier="quick", seed=0, replay_budget=6):
                 # the solver could not decide: use random concrete executions as a model
                 # finder (a failing real execution is a counterexample whatever found it)
                 found = None
-                for k in range(12):
+                for k in range(12 if hdef.concrete_alarms else 0):
                     hc, oc = _run_mode(hdef, case, "conc", None, seed * 131 + k, use_defaults=False)
                     if oc[0] != "abort" and [n for n, ok in hc.obligations if n == name and not ok]:
                         found = dict(hc.values)
@@ -630,7 +649,7 @@ def run_job(hdef, case, tier="quick", seed=0, replay_budget=6):
                     "claim": str(claim)[:300], "verdict": verdict})
         # ---- translator validation on this path's model: conc vs fold
         if path_model is not None and stats["validated_points"] < hdef.random_validation + 2:
-            vals = _model_values(path_model, h, e)
+            vals = _model_values(path_model, h, e, None, pur)
             _validate(hdef, case, vals, seed, stats)
     # ---- random-point validation (harness without oracle values)
     for i in range(hdef.random_validation):
@@ -663,7 +682,7 @@ def _validate(hdef, case, vals, seed, stats, use_defaults=True):
         return
     stats["validated_points"] += 1
     for n, ok in hc.obligations:
-        if not ok:
+        if not ok and (hdef.concrete_alarms or vals is not None):
             stats["violations"].append({
                 "harness": hdef.name, "case": case, "obligation": n, "values": dict(hc.values),
                 "detail": "obligation fails in a plain-float execution of the real code at a "
@@ -683,6 +702,51 @@ def _validate(hdef, case, vals, seed, stats, use_defaults=True):
                 f"translator validation mismatch {hdef.name}{_case_repr(case)} {name}: "
                 f"float={cv!r} symbolic={fv!r}")
             break
+
+
+class Purifier:
+    """Ackermannisation: replace every uninterpreted-function application by a fresh real
+    constant and add functional-consistency constraints, so that z3 sees pure QF_NRA and
+    uses its nlsat pipeline (with UFs present it falls back to a much weaker core)."""
+
+    def __init__(self):
+        self.cache = {}      # term id -> purified term
+        self.apps = {}       # uf name -> list of (purified args, const)
+        self.n = 0
+        self.new_consistency = []
+
+    def __call__(self, t):
+        k = t.get_id()
+        r = self.cache.get(k)
+        if r is not None:
+            return r
+        ch = t.children()
+        if not ch:
+            r = t
+        else:
+            nch = [self(c) for c in ch]
+            if z3.is_app(t) and t.decl().kind() == z3.Z3_OP_UNINTERPRETED:
+                name = t.decl().name()
+                key = name + "|" + "|".join(c.sexpr() for c in nch)
+                r = self.cache.get(key)
+                if r is None:
+                    self.n += 1
+                    r = z3.Real(f"uf!{name}!{self.n}")
+                    for args2, c2 in self.apps.get(name, []):
+                        self.new_consistency.append(z3.Implies(
+                            z3.And([a == b for a, b in zip(nch, args2)]), r == c2))
+                    self.apps.setdefault(name, []).append((nch, r))
+                    self.cache[key] = r
+            elif all(a.eq(b) for a, b in zip(ch, nch)):
+                r = t
+            else:
+                r = t.decl()(*nch)
+        self.cache[k] = r
+        return r
+
+    def take_consistency(self):
+        out, self.new_consistency = self.new_consistency, []
+        return out
 
 
 def _vars(t, memo):
